@@ -625,6 +625,9 @@ def finish(run, proof, level_note, rule, extra_cov=None, assumptions=None):
         except Exception:
             small = op
         rs, vs = judge_lines([small], flavour, args)
+        if not (vs[0].startswith("FAIL") or vs[0].startswith("bad-op")):
+            # the shrunk line does not fail when re-run: report the original observation
+            small, rs, vs = op, [result], [verdict]
         path = write_replay(pid, small, rs[0], vs[0], flavour, args)
         out_lines.append("VIOLATION property=%s replay=%s" % (pid, path))
         rc = 1
